@@ -65,7 +65,7 @@ let line l =
        Printf.printf "U start sock=%s lock=%s pid=%s log=%s seed=%s used=%d removed=%d\n"
          (o3 m.m_sock) (o3 m.m_lock) (o3 m.m_pid)
          (match m.m_log with None -> "-" | Some x -> o3 x)
-         (if sr.sr_keep then o3 m.m_seed else "-")
+         (match seed_after c with None -> "-" | Some x -> o3 x)
          (if sr.sr_used then 1 else 0) (if sr.sr_removed then 1 else 0))
   | _ -> Printf.printf "? %s\n" l
 
